@@ -10,13 +10,16 @@ inside the configuration, one record per configuration and one spec per (configu
 
 Round trips are taken of models whose names are unique along every scope chain (`NamesChain`); `C19_step_any` /
 `C19_history_any` cover every IR version; `C19_inline_pass` / `C19_inline_pass_axes` are about the complete
-`InlinePass` (`Model/DeviceInl.lean`), after which only the weaker invariant `WeakOK` holds.
+`InlinePass` (`Model/DeviceInl.lean`), after which only the weaker invariant `WeakOK` holds; `C19_step_weak` /
+`C19_history_weak` / `C19_weak_checker` are the step and history theorems that start from the weak invariant
+(`WeakDev`, helper development in `Lemmas/DeviceWk*.lean`): `InlinePass` followed by any in-alphabet history.
 -/
 import IrVerif.Lemmas.DeviceNames
 import IrVerif.Lemmas.DeviceRTLegacy
 import IrVerif.Lemmas.DeviceInline
 import IrVerif.Lemmas.DeviceInlPass
 import IrVerif.Lemmas.DeviceInlAxes
+import IrVerif.Lemmas.DeviceWkStep
 namespace IrVerif.Device
 
 /-! ### C19_step -/
@@ -673,6 +676,227 @@ example :
     (inlinePass 10 w 0 t).map (fun r => ((r.w.node 3).dev, (r.w.node 2).inputs, (r.w.node 2).dev)) =
       some ([⟨0, [⟨2, [], [⟨1, .unk, 2⟩]⟩, ⟨5, [], [⟨0, .int 2, 2⟩]⟩], none⟩], [some 5], [⟨0, [], none⟩]) ∧
     (inlinePass 10 w 0 t).map (fun r => (check r.w 0, decide (DevOK r.w))) = some ([Err.axisRange], false) := by
+  decide
+
+/-! ### after InlinePass: the weak invariant is inductive
+
+`C19_inline_pass` / `C19_inline_pass_axes` leave a world in which only `WeakOK` holds, and `C19_step` starts from
+`DevOK`.  `WeakDev G` is the inductive form of `WeakOK`: `DevOK` without "one spec per value" and with the axis
+clauses only for the specs whose target is outside the ghost predicate `G`; configurations are, as in `DevOK`,
+registered per model (`ModelOK`), not on one distinguished model (`WeakOK w m S` says "every node of the heap refers
+to configurations of model `m`", which `newModel` + `addCfg` + `shard`, or a clone of `m` - the copy gets configuration
+objects of its own - do not preserve).  The ghost predicate never changes: `Ghost S N` = the substituted targets `S`
+of the pass and every value id from `N` (the size of the value heap right after the pass) on; so nothing is ever
+added to the set of old values whose specs may have bad axes, and the values created later (their copies by clone /
+round trip in particular, whose axes are as good or bad as those of the originals) are not claimed. -/
+
+/-- the ghost predicate: the substituted targets `S` and every value id from `N` on -/
+def Ghost (S : List VId) (N : Nat) (v : VId) : Prop := v ∈ S ∨ N ≤ v
+
+instance (S : List VId) (N : Nat) (v : VId) : Decidable (Ghost S N v) := by unfold Ghost; infer_instance
+
+/-- one node under the weak invariant: `NodeOK` without "one spec per value", the axis clauses (`AxesOK`) only for
+    the specs whose target is outside `G` -/
+def NodeWeakOK (G : VId → Prop) (w : World) (nd : NodeS) : Prop :=
+  NodeIds w nd ∧
+  (nd.dev.map (·.cfg)).Nodup ∧
+  ∀ nc ∈ nd.dev,
+    nc.cfg < w.cfgs.length ∧
+    (∀ st, nc.stage = some st → 0 ≤ st) ∧
+    ∀ s ∈ nc.specs, InIO nd s.value ∧ (∀ d ∈ s.dims, 1 ≤ d.numShards) ∧
+      (∀ d ∈ s.device, 0 ≤ d ∧ d < (w.cfg nc.cfg).numDevices) ∧ (¬ G s.value → AxesOK w s)
+
+/-- **WeakDev**: every node of the heap `NodeWeakOK`, every model `ModelOK` (its nodes exist and refer only to
+    configurations registered on it, by identity) -/
+def WeakDev (G : VId → Prop) (w : World) : Prop :=
+  (∀ nd ∈ w.nodes, NodeWeakOK G w nd) ∧ (∀ ms ∈ w.models, ModelOK w ms)
+
+instance (G : VId → Prop) [DecidablePred G] (w : World) (nd : NodeS) : Decidable (NodeWeakOK G w nd) := by
+  unfold NodeWeakOK
+  have : ∀ o : Option Int, Decidable (∀ st, o = some st → 0 ≤ st) := by
+    intro o
+    cases o with
+    | none => exact isTrue (by simp)
+    | some x => exact decidable_of_iff (0 ≤ x) (by simp)
+  infer_instance
+
+instance (G : VId → Prop) [DecidablePred G] (w : World) : Decidable (WeakDev G w) := by unfold WeakDev; infer_instance
+
+instance (S : List VId) (N : Nat) : DecidablePred (Ghost S N) := fun v => by unfold Ghost; infer_instance
+
+/-- `WeakDev` is the predicate of the helper development (`Lemmas/DeviceWk.lean`) -/
+theorem WeakDev_iff (G : VId → Prop) (w : World) : WeakDev G w ↔ Wk.DevOK G w := by
+  constructor
+  · intro h
+    refine ⟨?_, h.2⟩
+    intro nd hnd
+    obtain ⟨a, b, c⟩ := h.1 nd hnd
+    refine ⟨a, b, ?_⟩
+    intro nc hnc
+    obtain ⟨c1, c2, c3⟩ := c nc hnc
+    refine ⟨c1, c2, trivial, ?_⟩
+    intro s hs
+    obtain ⟨d1, d2, d3, d4⟩ := c3 s hs
+    exact ⟨d1, fun g => (d4 g).1, fun g => (d4 g).2, d2, d3⟩
+  · intro h
+    refine ⟨?_, h.2⟩
+    intro nd hnd
+    obtain ⟨a, b, c⟩ := h.1 nd hnd
+    refine ⟨a, b, ?_⟩
+    intro nc hnc
+    obtain ⟨c1, c2, _, c3⟩ := c nc hnc
+    refine ⟨c1, c2, ?_⟩
+    intro s hs
+    obtain ⟨d1, e1, e2, d2, d3⟩ := c3 s hs
+    exact ⟨d1, d2, d3, fun g => ⟨e1 g, e2 g⟩⟩
+
+/-- `DevOK` implies `WeakDev`, whatever the ghost predicate -/
+theorem WeakDev_of_DevOK (G : VId → Prop) (w : World) (h : DevOK w) : WeakDev G w := by
+  rw [WeakDev_iff]
+  exact ⟨fun nd hnd => Wk.NodeOK_of_strong (h.1 nd hnd), h.2⟩
+
+/-- **C19_step_weak**: the step theorem that starts from the weak invariant.  Every operation of the alphabet of
+    `C19_step`, under the same in-alphabet condition `Pre`, preserves `WeakDev (Ghost S N)` - for a fixed ghost
+    predicate: nothing is added to `S`, and `N` is any bound not above the current size of the value heap (the
+    operations that create copies - clone, round trip, `Function.clone`, `Graph.clone` - copy specs onto values that
+    do not exist yet, hence onto ghost values) - and does not shrink the value heap, so the bound stays below it.
+    In particular after the operation every spec still targets a current input or output of its node (a spec whose
+    target leaves a node is dropped, `C19_drop`), every record refers to a configuration registered on each model
+    that lists the node, and a spec on a non-ghost value still has its axes in range and not repeated. -/
+theorem C19_step_weak (S : List VId) (N : Nat) (w : World) (op : Op) (hN : N ≤ w.values.length)
+    (h : WeakDev (Ghost S N) w) (hpre : Pre w op) :
+    WeakDev (Ghost S N) (step w op).1 ∧ N ≤ (step w op).1.values.length := by
+  haveI : Wk.Fresh (Ghost S N) w.values.length := ⟨fun v hv => Or.inr (Nat.le_trans hN hv)⟩
+  rw [step_eq_stepD]
+  have h' := (WeakDev_iff _ _).1 h
+  exact ⟨(WeakDev_iff _ _).2 (Wk.stepD_ok w op h' hpre), Nat.le_trans hN (Wk.stepD_vlen w op h' hpre)⟩
+
+/-- histories from a world satisfying the weak invariant -/
+theorem run_weak (S : List VId) (N : Nat) (ops : List Op) : ∀ (w : World), N ≤ w.values.length →
+    WeakDev (Ghost S N) w → PreAll w ops →
+    WeakDev (Ghost S N) (run w ops).1 ∧ N ≤ (run w ops).1.values.length := by
+  induction ops with
+  | nil => intro w hN h _; exact ⟨h, hN⟩
+  | cons op rest ih =>
+    intro w hN h hp
+    obtain ⟨h1, h2⟩ := C19_step_weak S N w op hN h hp.1
+    exact ih (step w op).1 h2 h1 hp.2
+
+/-- **C19_weak_checker**: what the weak invariant says about every model `m` of the world (whatever the ghost
+    predicate): every node listed on `m` satisfies `NodeWeak` relative to the registrations of `m` - one record per
+    configuration, every record refers to a configuration registered on `m` (by identity), stages non-negative,
+    **every spec targets a current input or output of its node**, at least one shard per axis, device indices inside
+    the configuration -; a spec on a non-ghost value passes the checker's axis loop; and the model of the library's
+    checker reports at most: a sharded value with an empty name, an axis out of range, an axis repeated - never a
+    spec outside its node, an undeclared / foreign configuration, `num_shards < 1` or a device index out of range. -/
+theorem C19_weak_checker (G : VId → Prop) (w : World) (h : WeakDev G w) (m : MId) :
+    (∀ n ∈ (w.model m).nodes, NodeWeak (w.model m).cfgs w.cfgs (w.node n)) ∧
+    (∀ n, ∀ nc ∈ (w.node n).dev, ∀ s ∈ nc.specs, ¬ G s.value →
+      AxesOK w s ∧ checkDims (rankOf (w.value s.value)) [] s.dims = []) ∧
+    (∀ e ∈ check w m, e = Err.valEmptyName ∨ e = Err.axisRange ∨ e = Err.axisRepeat) := by
+  have hmo : ModelOK w (w.model m) := by
+    rcases model_mem_or_default w m with hm | hd
+    · exact h.2 _ hm
+    · rw [hd]; exact ModelOK_default w
+  have hnode : ∀ n, NodeWeakOK G w (w.node n) := by
+    intro n
+    rcases node_mem_or_default w n with h1 | h1
+    · exact h.1 _ h1
+    · rw [h1]; exact ⟨⟨by simp, by simp⟩, by simp, by simp⟩
+  have hweak : ∀ n ∈ (w.model m).nodes, NodeWeak (w.model m).cfgs w.cfgs (w.node n) := by
+    intro n hn
+    obtain ⟨_, b, c⟩ := hnode n
+    refine ⟨b, ?_⟩
+    intro nc hnc
+    obtain ⟨_, c2, c3⟩ := c nc hnc
+    refine ⟨((hmo.1 n hn).2 nc hnc), c2, ?_⟩
+    intro s hs
+    obtain ⟨d1, d2, d3, _⟩ := c3 s hs
+    exact ⟨d1, d2, d3⟩
+  refine ⟨hweak, ?_, ?_⟩
+  · intro n nc hnc s hs hg
+    obtain ⟨_, _, c⟩ := hnode n
+    obtain ⟨_, d2, _, d4⟩ := (c nc hnc).2.2 s hs
+    exact ⟨d4 hg, checkDims_nil _ _ [] (d4 hg).1 (d4 hg).2 d2 (by simp)⟩
+  · intro e he
+    unfold check at he
+    simp only [List.mem_flatten, List.mem_map] at he
+    obtain ⟨l, ⟨n, hn, rfl⟩, hel⟩ := he
+    exact checkNode_weak (hweak n hn) hmo.2.1 hmo.2.2 e hel
+
+/-- **C19_history_weak**: `InlinePass` and then ANY in-alphabet history.  From a world satisfying `DevOK` in which
+    every node of the heap is annotated with configurations of model `m` only (`HeapReg`), these configurations are
+    registered on every model of the world (`RegShared`; trivially so in a world with one model; without it the pass
+    itself breaks "registered on its model": the nodes created for a call are listed on every model that owns the
+    graph) and the graph inputs / initializers exist (`GraphIds`): whenever the pass does not raise, the world it
+    leaves satisfies the weak invariant with the ghost predicate "substituted by the pass (`r.subst`), or created
+    after the pass", and so does the world reached by every history `ops` of operations of the alphabet of
+    `C19_step` (annotate - valid or rejected -, edit, rename, detach, cascade removal, clone, round trip, ...) under
+    the same in-alphabet condition (`PreAll`).  With `C19_weak_checker`: after inline + arbitrary further edits every
+    annotation of every model still targets a current input or output of its node and a configuration registered on
+    that model, and every spec whose target existed after the pass and was not substituted by it still has its axes
+    in range and not repeated. -/
+theorem C19_history_weak (w : World) (h : DevOK w) (m : MId) (hreg : HeapReg w m) (hsh : RegShared w m)
+    (hg : GraphIds w) (t : ITab) (fuel : Nat) (r : IOut) (hr : inlinePass fuel w m t = some r)
+    (ops : List Op) (hpre : PreAll r.w ops) :
+    WeakDev (Ghost r.subst r.w.values.length) r.w ∧
+    WeakDev (Ghost r.subst r.w.values.length) (run r.w ops).1 ∧
+    r.w.values.length ≤ (run r.w ops).1.values.length := by
+  have ha := inlinePass_AInv hr (AInv_of_DevOK h m hreg hg)
+  have hm := inlinePass_models h m hreg hsh t fuel r hr
+  have h0 : WeakDev (Ghost r.subst r.w.values.length) r.w := by
+    refine ⟨?_, hm⟩
+    intro nd hnd
+    obtain ⟨b, c⟩ := ha.wj.hnodes nd hnd
+    refine ⟨ha.nids nd hnd, b, ?_⟩
+    intro nc hnc
+    obtain ⟨c1, c2, c3⟩ := c nc hnc
+    have hlt : nc.cfg < w.cfgs.length := ((h.model m).2.1 nc.cfg c1).1
+    refine ⟨by rw [ha.wj.hcfgs]; exact hlt, c2, ?_⟩
+    intro s hs
+    obtain ⟨d1, d2, d3⟩ := c3 s hs
+    refine ⟨d1, d2, ?_, ?_⟩
+    · simp only [World.cfg, ha.wj.hcfgs]; exact d3
+    · intro hgh
+      exact ha.ax nd hnd nc hnc s hs (fun hin => hgh (Or.inl hin))
+  obtain ⟨h1, h2⟩ := run_weak r.subst r.w.values.length ops r.w (Nat.le_refl _) h0 hpre
+  exact ⟨h0, h1, h2⟩
+
+/-- non-vacuity: the world of the `InlinePass` example above (after the pass `DevOK` is lost: the substituted
+    argument `x` is sharded along an axis it does not have); then annotate the inlined node again (on the substituted
+    value), rename, clone the model, round-trip it, detach an input, set a stage.  The hypotheses hold, every operation
+    succeeds, the weak invariant holds after the history, `DevOK` does not, and the checker of every model (the
+    original, the clone, the reload) reports nothing but `axisRange`. -/
+example :
+    let w := (run {} [.newModel 11, .addCfg 0 "c" (some 2) [], .newFunction 0, .newInput 1 "fx" none,
+      .newNode 1 [some 0] [("fo", some [.int 2])], .shard 0 0 0 1 2 [] none, .shard 0 1 0 0 2 [] none,
+      .newInput 0 "x" (some [.int 4]), .newNode 0 [some 2] [("c", none)], .newNode 0 [some 3] [("u", none)],
+      .shard 2 3 0 0 2 [] none]).1
+    let t : ITab := { callee := [(1, 1)], outs := [(1, [1]), (0, [4])] }
+    let ops : List Op := [.shard 3 2 0 0 2 [1] (some 1), .rename 2 "x2", .clone 0, .roundTrip 0,
+      .replaceInput 2 0 none, .setStage 3 0 1]
+    DevOK w ∧ HeapReg w 0 ∧ RegShared w 0 ∧ GraphIds w ∧
+    (inlinePass 10 w 0 t).map (fun r => decide (PreAll r.w ops ∧ (run r.w ops).2.all (· = .ok) ∧
+      ¬ DevOK r.w ∧ ¬ DevOK (run r.w ops).1 ∧ (run r.w ops).1.models.length = 3 ∧
+      WeakDev (Ghost r.subst r.w.values.length) (run r.w ops).1 ∧
+      [0, 1, 2].map (check (run r.w ops).1) = [[Err.axisRange], [Err.axisRange], [Err.axisRange]])) = some true := by
+  decide
+
+/-- the hypothesis `RegShared` is needed: a second model that shares the main graph (and lists the call node) but
+    does not register the configuration: after the pass it lists the inlined node, which refers to a configuration
+    it does not declare -/
+example :
+    let w : World := {
+      values := [{ name := "a" }, { name := "b" }, { name := "x" }, { name := "y" }],
+      cfgs := [{ name := "c", numDevices := 1 }],
+      nodes := [{ inputs := [some 0], outputs := [1] },
+                { inputs := [some 2], outputs := [3], dev := [{ cfg := 0, specs := [], stage := none }] }],
+      graphs := [{ inputs := [0], nodes := [0] }, { inputs := [2], nodes := [1] }],
+      models := [{ graph := 0, graphs := [0, 1], nodes := [0, 1], cfgs := [0], funcs := [1] },
+                 { graph := 0, graphs := [0], nodes := [0], cfgs := [] }] }
+    let t : ITab := { callee := [(0, 1)], outs := [(1, [3]), (0, [1])] }
+    DevOK w ∧ HeapReg w 0 ∧ GraphIds w ∧ ¬ RegShared w 0 ∧
+    (inlinePass 5 w 0 t).map (fun r => decide (WeakDev (Ghost r.subst r.w.values.length) r.w)) = some false := by
   decide
 
 end IrVerif.Device
